@@ -786,6 +786,11 @@ func c11(c *fw.Ctx) {
 	}
 	c.Exhaustive("the 36 Aztec symbol sizes")
 
+	nreuse := c.Pick(40, 600)
+	for i := 0; i < nreuse; i++ {
+		c.Run(fmt.Sprintf("reuse/%d", i), func(r *fw.Rec) { c11ReuseCase(r) })
+	}
+	c.Floor("reused_decoder_histories", int64(nreuse*8/10))
 	c.Floor("highlevel_streams_equal", int64(hlCases*50*9/10))
 	c.Floor("highlevel_streams_le_30_bits", 100)
 	c.Floor("highlevel_streams_gt_1000_bits", 100)
